@@ -97,6 +97,28 @@ theorem extra_stop_double_release : ∃ d ∈ handlerFrom true (table .fkeygen) 
 theorem unstopped_constructor_leaks :
     ∃ d ∈ andThen [Delta.start 0] (pathsOf (table .eresharing).ctor .full), d.held = 1 := by decide
 
+/-- **C10 (sessions of several processes).** A session of any number of processes of any kinds, each on its own store,
+    with any outcome after the constructors: every store ends balanced when every process is stopped exactly once. -/
+theorem multi_balanced (ks : List Kind) (o : Outcome) :
+    ∀ ds ∈ multiFrom table ks o (fun _ _ => 1), ∀ d ∈ ds, Balanced d := by
+  have key : ∀ (k : Kind), ∀ d ∈ andThen (afterRun (table k).pset o) (table k).pset.stop, Balanced d := by
+    intro k
+    cases k <;> cases o <;> decide
+  intro ds hds d hd
+  simp only [multiFrom, List.mem_map] at hds
+  obtain ⟨⟨k, i⟩, _, rfl⟩ := hds
+  have h1 : stopTimes (table k).pset 1 (afterRun (table k).pset o) =
+      andThen (afterRun (table k).pset o) (table k).pset.stop := by
+    simp [stopTimes, List.range_succ]
+  rw [h1] at hd
+  exact key k d hd
+
+/-- the class re-derived (deferred closures that all capture one loop variable): with two processes the last one is
+    stopped twice - a release of a free lock - and the first one never - its lock stays held -/
+theorem loop_variable_capture_breaks :
+    let r := multiFrom table [.fkeygen, .eresharing] .never (fun i n => if i + 1 = n then n else 0)
+    r.map (fun ds => ds.map fun d => (d.held, d.fatal)) = [[(1, 0)], [(0, 1)]] := by decide
+
 /-- **C10 (retried sessions).** With the retry rounds reachable through `Execute` (handleError classifies joined
     errors): constructor, TWO activations of `Run` on the same object - each leaving at any conditional return or
     running the protocol - and one `Stop`, on every combination of paths and for every kind (only the signing kinds
